@@ -410,6 +410,7 @@ let polyp_case_line (line : string) =
        | [ ("movec" | "movea"); h; g ] -> apply (M.Move (nat h, nat g))
        | [ "write"; h; k; v ] -> apply (M.Write (nat h, fun old -> List.mapi (fun j x -> if j = i k then czi (i v) else x) old))
        | [ "read"; _; _ ] -> ()
+       | [ "createbad"; _ ] -> ()                                                      (* the constructor throws: no handle, no cell *)
        | [ "setu"; h; v ] -> apply (M.Write (nat h, fun _ -> const_poly (i v)))
        | [ "setl"; h; v ] -> apply (M.Write (nat h, fun _ -> List.init n (fun j -> if j < 2 then zmod (czi (i v + j)) p else czi 0)))
        | [ "ntt"; h ] -> apply (M.Write (nat h, fun old -> M.ntt_fwd wz p g kmaxn k0 old))
